@@ -45,12 +45,8 @@ static void do_step()
     std::string order[4];
     for (auto& o : order) o = next();
     double Ib, E0, sE, dt, f_rev, f_RF, bl, pqsize;
-    // impedance parameters come first in the token stream
-    // (they need nmax only; fmax is derived as main() does)
-    std::vector<std::string> save;
-    // read the physical parameters after the impedance: peek order is fixed by the generator
-    // generator order: ztype zparams Ib E0 sE dt f_rev f_RF bl pqsize angle e1 deriv data
-    // fmax needs bl and pqsize, so remember the position and parse the impedance afterwards
+    // token order: ztype zparams Ib E0 sE dt f_rev f_RF bl pqsize angle e1 deriv data.  fmax needs bl and
+    // pqsize, so the impedance tokens are skipped first and parsed once fmax is known.
     size_t zpos = tp;
     {
         std::string zt = next();
